@@ -10,6 +10,7 @@ claimed = {
  "C11": ("exploration","Histories ending in drop / detach / restart / exit at every kind of stop: the namespace's process table after teardown, text and DR7 at the instant of PTRACE_DETACH, completion of the released process with the native exit status, breakpoint numbers/places across restart and the post-restart stop vs the reference execution, reported exit codes.","§4 C11","deterministic simulation: teardown histories with process-table / detach-instant oracles", NOTE),
  "C14": ("exploration","Histories of watchpoint add/remove (address x size x condition, aligned and not, duplicates, fifth) interleaved with execution and restart; after every operation the harness reads DR0-3/DR7 of the tracee with PTRACE_PEEKUSER and compares with a 4-slot model and with watchpoint_list(); refusals must be side-effect free. Hit delivery is not exercisable on this host (DESIGN §1.3).","§4 C14","deterministic simulation: debug-register image vs slot model", NOTE),
  "C16": ("exploration","Injected calls of 0/2/3/6-parameter functions with boundary literals, and uncallable requests, at random stops (incl. inside leaf functions and inside the callee's own code): all registers, /proc/maps, text, position and the callee's own argument log are compared before/after; execution afterwards still follows the reference.","§4 C16","deterministic simulation: before/after state comparison around injected calls", NOTE),
+ "C12": ("exploration","The real DebugSession and its two output-forwarder threads run under a seeded scheduler that parks and releases them at the H1 schedule points; a simulated adaptive client sends valid, out-of-order and argument-mutated requests over an in-memory transport; the recorded wire log is checked for one response per request, seq=1,2,3.. in wire order, event uniqueness/causality and silence after `terminated`. One confirmed defect (output after terminated) is a known finding.","§4 C12 / §2.7","deterministic simulation: seeded thread interleavings at hook points + wire-history invariants", "Trusted base: the H1 points lie outside every critical section; the in-memory transport admits exactly the wire orders of the real one; debuggee output is written in whole lines."),
 }
 na = {
  "C04":"pure function of (binary, address|line|name): no schedule, fault, clock or history for a simulator to control (DESIGN §5)",
@@ -19,7 +20,7 @@ na = {
  "C19":"pure function of (DWARF, pc, selected frame) at a stop; no dependence on how the stop was reached (DESIGN §5)",
  "C20":"technique would apply (task schedules) but no tokio crate exists in the offline cargo cache, so no debuggee can be built (DESIGN §5)",
 }
-pending = {p: "check not built yet in this session (design in DESIGN.md §4); will be claimed when its check lands" for p in ["C08","C09","C10","C12","C13","C15","C18"]}
+pending = {p: "check not built yet in this session (design in DESIGN.md §4); will be claimed when its check lands" for p in ["C08","C09","C10","C13","C15","C18"]}
 try:
     exec(open('/verif/tools/manifest_extra.py').read())
 except FileNotFoundError:
